@@ -24,6 +24,8 @@ Sources (re-derived from the cited publications, not from the kernels):
 import math
 from fractions import Fraction
 
+import numpy as np
+
 UNDEF = "undefined"      # zero denominator -> the property demands NaN
 OUTSIDE = "outside"      # formula not real-valued -> nothing asserted
 
@@ -112,6 +114,21 @@ def expected(name, bands, params=()):
     return float(r)
 
 
-def alpha_ref(red, nodata):
-    """true_color: alpha is 0 exactly where red is NaN or <= nodata, 255 elsewhere."""
-    return 0 if (red != red or red <= nodata) else 255
+TIE = "tie"
+
+
+def alpha_ref(red, nodata, f32_raster=False):
+    """true_color: alpha is 0 exactly where red is NaN or <= nodata, 255 elsewhere.
+
+    `red` is the cell as a Python number (ndarray.tolist(): the exact value stored in the raster's own dtype),
+    `nodata` the Python number passed by the caller; Python compares int/float exactly, so a float64 cell one ulp
+    above nodata, or the int cell 2^24+1 against nodata 2^24, is > nodata.
+    f32_raster: the cell comes from a float32 raster.  When nodata is not float32-representable the raster cannot
+    hold it; "the raster's nodata value" may then mean float32(nodata).  Where the two readings disagree
+    (nodata < red = float32(nodata)) nothing is asserted -> TIE."""
+    if red != red:
+        return 0
+    exact = red <= nodata
+    if f32_raster and exact != (red <= float(np.float32(nodata))):
+        return TIE
+    return 0 if exact else 255
